@@ -31,6 +31,10 @@ func oracleC20(x *Exec, so *StepObs) {
 	if so.After == nil {
 		return
 	}
+	if strings.HasPrefix(so.After.HistErr, "panic:") {
+		fail("no-panic", "history", damage+":"+panicSite(so.After.HistErr), "Storage.History panicked: "+trunc(so.After.HistErr, 1200))
+		return
+	}
 	if so.Step.Corrupt != nil {
 		// the observer's History must return exactly the undamaged records (the damaged one may or may not still decode)
 		x.Res.Checks++
